@@ -56,6 +56,8 @@ def regenerate(ctx: Ctx) -> None:
         ctx.gen_status["Parallel.roundRecordsEveryPair"] = {"sorted": tr_history.round_sorts(), "reached_on_every_path": True}
     except Unavailable as e:
         ctx.gen_status["Parallel.roundRecordsEveryPair"] = f"unavailable ({e}); the predicates are the only tie"
+    from translate import transcripts as _tr
+    ctx.gen_status.update(_tr.constructor_wiring(['NetworkSampling']))
 
 
 # ----------------------------------------------------------------------------- real pool
